@@ -274,6 +274,34 @@ def cases(rng, tier):
         yield ("conv_nd", (lambda st=st, pad=pad, dil=dil: lambda x, w: nn.conv_nd(x, w, stride=st, padding=pad, dilation=dil))(), [V(xs), V(ws)], dict(x=xs, w=ws, stride=st, padding=pad, dilation=dil), None)
     for (xs, pool, st) in [((1, 1, 4), (2,), 2), ((2, 2, 5), (3,), 1), ((1, 1, 4, 6), (2, 3), (2, 3)), ((2, 1, 5, 5), (3, 3), 2), ((1, 2, 4, 4), (2, 2), 1), ((3, 4), (2,), 2), ((2, 3, 4, 4), (1, 2, 2), (1, 2, 2))]:
         yield ("max_pool", (lambda pool=pool, st=st: lambda x: nn.max_pool(x, pool, st))(), [DV(xs)], dict(x=xs, pool=pool, stride=st), None)
+    # generated grid: per pooled axis every valid (size, pool, stride) with size 4..6, pool 1..3, stride 1..4; two pooled axes combine the
+    # per-axis relations stride <, =, > pool in every way (overlapping windows on one axis and gaps on the other, ...)
+    per_axis = [(n_, p_, s_) for n_ in (4, 5, 6) for p_ in (1, 2, 3) for s_ in (1, 2, 3, 4) if (n_ - p_) % s_ == 0]
+    rel = lambda t: (t[2] > t[1]) - (t[2] < t[1])  # noqa
+    seen_rel = {}
+    for a0 in per_axis:
+        for a1 in per_axis:
+            key = (rel(a0), rel(a1))
+            if tier == "quick" and seen_rel.get(key, 0) >= 3:
+                continue
+            seen_rel[key] = seen_rel.get(key, 0) + 1
+            xs, pool, st = (2, a0[0], a1[0]), (a0[1], a1[1]), (a0[2], a1[2])
+            yield ("max_pool", (lambda pool=pool, st=st: lambda x: nn.max_pool(x, pool, st))(), [DV(xs)], dict(x=xs, pool=pool, stride=st, grid=True), None)
+    # conv_nd: per-axis stride / padding / dilation tuples in every combination that is valid and inside sliding_window_view's acceptance rule
+    import itertools as _it
+
+    n_conv = 0
+    for ws_, st, pad, dil in _it.product(((2, 3), (3, 2), (1, 2)), (1, 2, (2, 1), (1, 2), (3, 1)), (0, 1, (1, 0), (0, 2), (2, 1)), (1, 2, (2, 1), (1, 2))):
+        tup = lambda v: v if isinstance(v, tuple) else (v, v)  # noqa
+        x_sp = (5, 6)
+        okc = all((x_ + 2 * p_ - ((w_ - 1) * d_ + 1)) >= 0 and (x_ + 2 * p_ - ((w_ - 1) * d_ + 1)) % s_ == 0 and w_ * d_ <= x_ + 2 * p_ for x_, w_, s_, p_, d_ in zip(x_sp, ws_, tup(st), tup(pad), tup(dil)))
+        if not okc:
+            continue
+        n_conv += 1
+        if tier == "quick" and n_conv % 4 != 1:
+            continue
+        xs, ws = (1, 2) + x_sp, (2, 2) + ws_
+        yield ("conv_nd", (lambda st=st, pad=pad, dil=dil: lambda x, w: nn.conv_nd(x, w, stride=st, padding=pad, dilation=dil))(), [V(xs), V(ws)], dict(x=xs, w=ws, stride=st, padding=pad, dilation=dil, grid=True), None)
     for xs in ((4, 3), (3, 2, 4), (2, 2, 3, 2)):
         C = xs[1]
         yield ("batchnorm", lambda x: nn.batchnorm(x, eps=1e-3), [DV(xs)], dict(x=xs), None)
